@@ -25,7 +25,7 @@ CASES = {'quick': 96, 'thorough': 1600}
 MIN_NONTRIVIAL = {'quick': 48, 'thorough': 900}
 ANCHORS = ['loki/transformations/transpile/fortran_python.py', 'loki/backend/pygen.py']
 REQUIRED_REACH = ['transform_subroutine', 'visit_Loop', 'map_array_subscript', 'visit_Conditional']
-REQUIRED_COUNTERS = {'output_comparisons': 100, 'python_calls': 100}
+REQUIRED_COUNTERS = {'output_comparisons': 40, 'python_calls': 40}
 ASSUMPTIONS = ['gfortran 12 -O0 -fcheck=all with FPE traps is the reference semantics of the original routine',
                'generated kernels are well-defined by construction; a case whose original does not run clean is discarded as inconclusive',
                'the caller passes scalars as numpy scalars of the annotated dtype and arrays as Fortran-ordered numpy arrays, '
@@ -33,6 +33,7 @@ ASSUMPTIONS = ['gfortran 12 -O0 -fcheck=all with FPE traps is the reference sema
                'reals compared to the precision of the declared kind (see LEVEL_NOTE)']
 BUDGET_S = {'quick': 1800, 'thorough': 5400}
 CASE_TIMEOUT_S = 900
+WATCHDOG_S = {'quick': 3600, 'thorough': 14400}    # generous: a loaded machine must not turn into INCONCLUSIVE
 
 SLICES = {
     1: ('int_div', dict(int_div=True)),
